@@ -385,9 +385,9 @@ def block_skeletons():
 
 OPERANDS = [
     ('int', '1'), ('long', '100000'), ('single', '1.5'), ('double', '1.5#'),
-    ('string', '"a"'), ('ivar', 'a%'), ('lvar', 'b&'), ('svar', 'c!'), ('dvar', 'd#'),
+    ('string', '"a"'), ('ivar', 'a%'), ('dvar', 'd#'),
     ('strvar', 'e$'), ('record', 'rec'), ('array', 'arr'), ('field', 'rec.px'),
-    ('elem', 'arr(1)'), ('zero', '0'), ('neg', '-1'), ('funccall', 'f1%(1)'),
+    ('elem', 'arr(1)'), ('lvar', 'b&'), ('svar', 'c!'), ('zero', '0'), ('neg', '-1'), ('funccall', 'f1%(1)'),
     ('builtin-str', 'CHR$(65)'), ('intmax', '32767'), ('longmax', '2147483647'),
     ('sglmax', '3E+38'), ('dblmax', '1D+308'),
 ]
@@ -406,6 +406,11 @@ EXPR_CTX = [
 ]
 
 
+COND_CTX = [('if', 'IF {} THEN PRINT 1'), ('while', 'WHILE {}\nWEND'), ('index', 'arr({}) = 1'),
+            ('arg', 'CALL s1({})'), ('select', 'SELECT CASE {}\nCASE 1\nEND SELECT'),
+            ('dim', 'DIM qq({})')]
+
+
 def expressions():
     out = []
 
@@ -421,23 +426,23 @@ def expressions():
     for op in BINOPS:
         for ai, (an, a) in enumerate(OPERANDS):
             for bi, (bn, b) in enumerate(OPERANDS):
-                if (ai >= 14 or bi >= 14) and not (an == bn or an in ('int', 'double', 'string')
+                if (ai >= 12 or bi >= 12) and not (an == bn or an in ('int', 'double', 'string')
                                                    or bn in ('int', 'double', 'string')):
                     continue
-                ctxs = EXPR_CTX if (an, bn) == ('int', 'int') else main_ctx[:2]
-                add(f'bin/{op}/{an}/{bn}', f'{a} {op} {b}', ctxs)
+                core = an in ('int', 'string') and bn in ('int', 'string')
+                add(f'bin/{op}/{an}/{bn}', f'{a} {op} {b}', EXPR_CTX if core else main_ctx[:1])
         # a condition of each kind built with the operator
-        for an, a in OPERANDS[:14]:
-            add(f'bin-cond/{op}/{an}', f'{a} {op} {a}', EXPR_CTX[4:])
+        for an, a in OPERANDS[:12]:
+            add(f'bin-cond/{op}/{an}', f'{a} {op} {a}', COND_CTX)
     # every unary operator (and pairs) x operand kinds
     for u in UNOPS:
         for an, a in OPERANDS:
-            add(f'un/{u}/{an}', f'{u} {a}', main_ctx)
+            add(f'un/{u}/{an}', f'{u} {a}', main_ctx[:1] + main_ctx[3:5])
     # unary operator after every binary operator
     for op in BINOPS:
         for u in UNOPS:
             for an, a in (('int', '1'), ('ivar', 'a%'), ('double', '2.5#'), ('paren', '(3)')):
-                add(f'bin-un/{op}/{u}/{an}', f'2 {op} {u} {a}', main_ctx[:3])
+                add(f'bin-un/{op}/{u}/{an}', f'2 {op} {u} {a}', main_ctx[:1] + main_ctx[2:3])
                 add(f'bin-un-chain/{op}/{u}/{an}', f'2 {op} {u} {a} {op} 3', main_ctx[:1])
     # nested parentheses
     for d in list(range(1, 41)):
@@ -592,9 +597,8 @@ def expressions():
             '&O37777777777', '&O40000000000', '&O8', '&O', '&', '&B1', '1E5%', '1.5%', '1.5&']
     sufs = ['', '%', '&', '!', '#', '$']
     lit_ctx = [('assign', 'y = {}'), ('assign-int', 'y% = {}'), ('const', 'CONST kc = {}'),
-               ('dim', 'DIM qq({})'), ('data', 'DATA {}'), ('print', 'PRINT {}'),
-               ('index', 'arr({}) = 1'), ('neg', 'y = -{}'), ('arith', 'y% = {} + 1'),
-               ('locate', 'LOCATE {}'), ('for', 'FOR i% = {} TO 1\nNEXT')]
+               ('dim', 'DIM qq({})'), ('data', 'DATA {}'),
+               ('index', 'arr({}) = 1'), ('arith', 'y% = -{} + 1')]
     for l in lits:
         for s in sufs:
             add(f'literal/{l}{s}', l + s, lit_ctx)
